@@ -516,6 +516,9 @@ class Cluster:
                 ctx.override = ("no_reply",)
             elif f.act == "delay":
                 ctx.extra_delay = f.delay
+            elif f.act == "error_first":
+                # partition-level error on the first partition of the request only (Produce); the rest is served
+                a.extra["error_first"] = f.code
             elif f.act == "stale":
                 ctx.override = None
                 a.extra["stale"] = True
@@ -755,7 +758,9 @@ def h_produce(c, ctx):
             pl = c.log(t["name"], p["index"])
             res = {"index": p["index"], "error": 0, "offset": -1}
             ts = -1
-            if pl is None:
+            if ctx.arrival.extra.get("error_first") and not topics and not parts:
+                res["error"] = ctx.arrival.extra["error_first"]
+            elif pl is None:
                 res["error"] = UNKNOWN_TOPIC_OR_PARTITION
             elif pl.leader != ctx.node.node_id:
                 res["error"] = NOT_LEADER
